@@ -9,7 +9,7 @@ Pick == /\ c = <<>>
 Spec == Init /\ [][Pick]_c
 Emit == (c # <<>>) =>
   LET r == Recorded(c.key, c.pert) IN
-  PrintT(<<"REPLAY", ToJson([key |-> c.key, where |-> c.where, pert |-> c.pert, twin |-> c.twin,
+  PrintT(<<"REPLAY", ToJson([key |-> c.key, where |-> c.where, pert |-> c.pert, twin |-> c.twin, life |-> c.life,
                              rsize |-> r[1], ralign |-> r[2], runinit |-> r[3],
                              size |-> Palette[c.key][1], align |-> Palette[c.key][2], copy |-> Palette[c.key][3],
                              must_compile |-> CompileVerdict(c.key, r[1], r[2], r[3])])>>)
